@@ -106,8 +106,35 @@ def run(w: World, rep: Report):
     rep.check('C04.R1b', 'functions.OP_EQUAL|true-iff-same', ok, line=eq.node.lineno, file=REL,
               why='' if ok else 'OP_EQUAL does not put true exactly when the two popped items are the same bytes')
     bas = w.repo.func('functions', 'bytes_are_same')
-    txt = ast.unparse(bas.node.body[-1]).replace(' ', '')
-    ok = 'len(b1)==len(b2)' in txt and "int.from_bytes(xor(b1,b2),'little')==0" in txt and ' or ' not in ast.unparse(bas.node.body[-1])
+    # decided by evaluating the returned expression on small inputs with `xor` read as the bytewise xor it is
+    # (its own rule): equal -> true; same length, one bit different -> false; a prefix / different length -> false
+    from .feval import feval, Unknown
+    ret = bas.node.body[-1]
+    ok = isinstance(ret, ast.Return) and ret.value is not None and len(bas.params) == 2
+    if ok:
+        p1, p2 = bas.params[:2]
+
+        class X(ast.NodeTransformer):
+            def visit_Call(self, n):
+                self.generic_visit(n)
+                if isinstance(n.func, ast.Name) and n.func.id == 'xor' and len(n.args) == 2:
+                    a, b = n.args
+                    return ast.parse(f'bytes(x__ ^ y__ for x__, y__ in zip({ast.unparse(a)}, {ast.unparse(b)}))', mode='eval').body
+                return n
+        import copy as _copy
+        expr = X().visit(_copy.deepcopy(ret.value))
+        samples = [(b'', b'', True), (b'a', b'a', True), (b'ab', b'ab', True), (b'\x00', b'\x00', True),
+                   (b'a', b'b', False), (b'ab', b'aa', False), (b'ab', b'bb', False), (b'\x00', b'\x01', False),
+                   (b'\x80\x00', b'\x00\x00', False), (b'a', b'ab', False), (b'ab', b'a', False), (b'', b'\x00', False),
+                   (b'\x00', b'', False), (b'\x00\x00', b'\x00', False)]
+        try:
+            for a, b, want_ in samples:
+                if bool(feval(expr, {p1: a, p2: b})) != want_:
+                    ok = False
+        except Unknown:
+            txt = ast.unparse(bas.node.body[-1]).replace(' ', '')
+            ok = 'len(b1)==len(b2)' in txt and "int.from_bytes(xor(b1,b2),'little')==0" in txt and \
+                ' or ' not in ast.unparse(bas.node.body[-1])
     rep.check('C04.R1b', 'functions.bytes_are_same|length-and-xor', ok, line=bas.node.lineno, file=REL,
               why='' if ok else 'bytes_are_same no longer requires equal length and an all-zero xor')
     _no_memo_in_tree_classes(w, rep)
